@@ -1,5 +1,5 @@
 (* C17 — streaming base64 equals one-shot coding under any chunking and any I/O fault.  Statements only. *)
-Require Import GC.Base.Bytes GC.B64.B64Model GC.B64.B64Spec GC.B64.StreamModel GC.B64.StreamProofs.
+Require Import GC.Base.Bytes GC.B64.B64Model GC.B64.B64Spec GC.B64.StreamModel GC.B64.StreamProofs GC.Schemes.Consts.
 
 (* every way of splitting the data into Write calls, fault-free writer: exactly the one-shot encoding *)
 Theorem C17_encoder : forall e chunks,
@@ -35,7 +35,7 @@ Theorem C17_decoder_error : forall e data pre d x sizes,
 Proof. exact dec_stream_valid_err. Qed.
 
 Example C17_example :
-  let e := {| e_alpha := GC.Schemes.Consts.crypt_alphabet; e_pad := None; e_strict := false |} in
+  let e := {| e_alpha := crypt_alphabet; e_pad := None; e_strict := false |} in
   es_written (fst (enc_run e (enc_init [WOk; WFail 2 (ErrTok 1)]) [[1;2];[3;4;5;6];[7]] []))
   = firstn 6 (encode e [1;2;3;4;5;6;7]).
 Proof. vm_compute. reflexivity. Qed.
